@@ -25,7 +25,12 @@ NU == Len(U)
 NLeft == NU + Len(PatStrs)
 NW == Len(W)
 
-IsNames == <<"number", "string", "bool", "array", "object", "regex", "function", "null", "unknown", "foo">>
+\* after `is`: the nine type names, then identifiers that are NOT type names (internal tag
+\* names, other languages' names, the documented names in another letter case)
+IsNames == <<"number", "string", "bool", "array", "object", "regex", "function", "null", "unknown",
+             "foo", "nil", "nativefunction", "nativefn", "Null", "NULL", "str", "int", "float", "boolean", "list", "dict",
+             "undefined", "unset", "none", "any", "String", "ARRAY", "Number", "Bool", "Object", "Regex", "Unknown", "num", "obj", "arr", "fn">>
+IsOperands == U \o <<VNative>>
 
 \* ---- enumeration: Init picks family, operator and left operand, Next the right one
 VARIABLES fam, op, li, ri, done
@@ -36,7 +41,7 @@ Init ==
      \/ fam = "match" /\ op \in MatchOps /\ li \in 1..NLeft
      \/ fam = "un" /\ op \in UnOps /\ li \in 1..NU
      \/ fam = "inc" /\ op \in {"++", "--"} /\ li \in 1..NU
-     \/ fam = "is" /\ op = "is" /\ li \in 1..NU
+     \/ fam = "is" /\ op = "is" /\ li \in 1..Len(IsOperands)
 Next ==
   /\ ~done /\ done' = TRUE /\ UNCHANGED <<fam, op, li>>
   /\ CASE fam = "bin" -> ri' \in 1..NU
@@ -73,7 +78,7 @@ Vec == done =>
          LET x == IncDec(op, ri = 1, U[li]) IN
          Emit([fam |-> fam, op |-> op, li |-> li, l |-> U[li], prefix |-> (ri = 1), res |-> Ok(x.value), stored |-> x.stored])
     [] fam = "is" ->
-         Emit([fam |-> fam, op |-> op, li |-> li, l |-> U[li], name |-> IsNames[ri], res |-> IsOp(U[li], IsNames[ri])])
+         Emit([fam |-> fam, op |-> op, li |-> li, l |-> IsOperands[li], name |-> IsNames[ri], res |-> IsOp(IsOperands[li], IsNames[ri])])
 
 \* ======================================================================
 \* Laws (spec-level; checked by TLC in every enumerated state)
@@ -176,7 +181,9 @@ ValueLaws(v) ==
   /\ NumEq(Arith("+", v, Zero).v, NumOf(v)) \/ v.k = "str"
   /\ NumEq(Arith("*", v, I(1)).v, NumOf(v))
   /\ Cardinality({nm \in TypeNames : B(IsOp(v, nm))}) = 1
-  /\ ~B(IsOp(v, "foo"))
+  /\ \A i \in 1..Len(IsNames) : IsNames[i] \notin TypeNames => IsOp(v, IsNames[i]) = Ok(VBool(FALSE))
+  /\ \A i \in 1..Len(IsNames) : IsOp(VNative, IsNames[i]) = (IF i <= 9 THEN Unfixed ELSE Ok(VBool(FALSE)))
+  /\ {IsNames[i] : i \in 1..9} = TypeNames /\ Cardinality({IsNames[i] : i \in 1..Len(IsNames)}) = Len(IsNames)
   /\ v.k \in Kinds
   /\ IncDec("++", TRUE, v).value = IncDec("++", FALSE, v).stored
   /\ IncDec("++", FALSE, v).value = NumOf(v)
